@@ -56,4 +56,17 @@ def fromProto (records : List (Rat × Rat × Rat)) (auxMsg : Rat) : Prepared :=
 def split (p : Prepared) (k m : Nat) : List Rat × List Rat :=
   (p.P.map (· / k), p.aux.map (· / m))
 
+/-- Number of propulsors of a plant (`MachineryCalculation`): the electric propulsion drives and, for a vessel
+with shaft lines, the mechanical loads on them (after D34). -/
+def propulsors (drives mechLoads : Nat) (hasShaftLines : Bool) : Nat :=
+  drives + (if hasShaftLines then mechLoads else 0)
+
+/-- The divisor as found (D34): for a vessel with shaft lines only the mechanical loads were counted, although the
+drives were handed a share too. -/
+def propulsorsLegacy (drives mechLoads : Nat) (hasShaftLines : Bool) : Nat :=
+  if hasShaftLines then mechLoads else drives
+
+/-- Power handed out in total at one sample when each of the `receivers` gets `P / divisor`. -/
+def handedOut (P : Rat) (receivers divisor : Nat) : Rat := receivers * (P / divisor)
+
 end Feems.Profile
